@@ -429,8 +429,12 @@ class Check(object):
         {their rule id: our rule id}: a structural condition that two properties both need is decided once and reported under both.
         Known findings listed for the other property are not adopted (they are reported there)."""
         import importlib
+        chain_ = getattr(self, '_borrow_chain', (self.pid,))
+        if other_pid in chain_:
+            raise AnalysisError('cyclic borrow: %s' % ' -> '.join(chain_ + (other_pid,)))
         sub = Check(other_pid, tier=self.tier)
         sub.repo = self.repo
+        sub._borrow_chain = chain_ + (other_pid,)
         mod = importlib.import_module('.props.%s' % other_pid.lower(), __package__)
         mod.check(sub)
         kf = set((e['rule'], e['function'], e['construct']) for e in load_known_findings() if e.get('status') == 'known' and e.get('property') == other_pid)
